@@ -10,8 +10,23 @@ import (
 
 // C07: slices.Sorted[int]
 type c07 struct {
-	s     *slices.Sorted[int]
-	input []int
+	s         *slices.Sorted[int]
+	input     []int
+	lessID    int
+	countdown int // > 0: the less function panics on its countdown-th call from now (addpanic)
+}
+
+// wrap: the less function handed to NewSorted; panics when the countdown armed by `addpanic` runs out
+func (w *c07) wrap(base func(a, b int) bool) func(a, b int) bool {
+	return func(a, b int) bool {
+		if w.countdown > 0 {
+			w.countdown--
+			if w.countdown == 0 {
+				panic("less-panics")
+			}
+		}
+		return base(a, b)
+	}
 }
 
 func init() { register("C07", func() world { return &c07{} }) }
@@ -36,6 +51,7 @@ func (w *c07) step(t []string) string {
 		backing := make([]int, len(vals), len(vals)+extra)
 		copy(backing, vals)
 		w.input = backing
+		w.lessID = atoi(t[1])
 		switch atoi(t[1]) {
 		case 3: // NewSortedOrdered over ints (the spread form hands the function the caller's slice itself)
 			s := slices.NewSortedOrdered(backing...)
@@ -63,7 +79,8 @@ func (w *c07) step(t []string) string {
 			}
 			return "ok"
 		}
-		s := slices.NewSorted(backing, lessByID(atoi(t[1])))
+		w.lessID, w.countdown = atoi(t[1]), 0
+		s := slices.NewSorted(backing, w.wrap(lessByID(atoi(t[1]))))
 		w.s = &s
 		return "ok"
 	}
@@ -71,6 +88,56 @@ func (w *c07) step(t []string) string {
 		return bad()
 	}
 	switch t[0] {
+	case "addpanic":
+		// addpanic <v> <k>: Add(v) with a less function that panics on its k-th call; the caller recovers.  Afterwards the contents must still be
+		// sorted and be the old multiset, with or without v.  result: `nopanic <index>` | `panicked <0|1: v is in>` | `violated:<contents>`
+		need(t, 3)
+		v := atoi(t[1])
+		contents := func() []int {
+			out := make([]int, w.s.Len())
+			for i := range out {
+				out[i] = w.s.Get(i)
+			}
+			return out
+		}
+		before := contents()
+		if w.lessID <= 2 {
+			w.countdown = atoi(t[2])
+		}
+		res := func() (out string) {
+			defer func() {
+				if recover() != nil {
+					out = "panicked"
+				}
+			}()
+			return "nopanic " + itoa(w.s.Add(v))
+		}()
+		w.countdown = 0
+		if res != "panicked" {
+			return res
+		}
+		after := contents()
+		less := lessByID(w.lessID)
+		for i := 1; i < len(after); i++ {
+			if less(after[i], after[i-1]) {
+				return "violated:not-sorted:" + fmtInts(after)
+			}
+		}
+		cnt := map[int]int{}
+		for _, x := range after {
+			cnt[x]++
+		}
+		for _, x := range before {
+			cnt[x]--
+		}
+		extra := 0
+		for x, c := range cnt {
+			if c != 0 && !(x == v && c == 1) {
+				return "violated:not-the-multiset:" + fmtInts(after)
+			}
+			extra += c
+		}
+		return "panicked " + itoa(extra)
 	case "input":
 		return fmtInts(w.input)
 	case "slice":
